@@ -314,6 +314,7 @@ type HistoryOutcome struct {
 type HistOpts struct {
 	Traces    bool
 	DumpEvery bool // compare raw key dumps after every operation
+	SpecOnly  bool // search phase after a broken correspondence: only the property's oracles (specification, invariant on the real store, logical state), not the model
 }
 
 // prepImport: the model imports what the file contains after JSON decoding (read here, not by clover)
@@ -369,7 +370,7 @@ func runHistory(dr *Driver, im *Impl, lines []J, opts HistOpts) HistoryOutcome {
 				out.Index, out.Kind, out.Detail = i, "spec", "stored state is inconsistent: "+p
 				return out
 			}
-			if kv["inv"] != "1" && out.Index < 0 {
+			if kv["inv"] != "1" && out.Index < 0 && !opts.SpecOnly {
 				out.Index, out.Kind, out.Detail = i, "inv", "model state is not the rendering of the specification state: "+kv["inv"]
 				return out
 			}
@@ -380,8 +381,10 @@ func runHistory(dr *Driver, im *Impl, lines []J, opts HistOpts) HistoryOutcome {
 					out.Index, out.Kind, out.Detail = i, "spec", "database content differs from the specification: impl "+li+" spec "+ls
 					return out
 				}
-				out.Index, out.Kind, out.Detail = i, "dump", "raw keys differ: impl "+id+" model "+strings.TrimPrefix(m, "dump ")
-				return out
+				if !opts.SpecOnly {
+					out.Index, out.Kind, out.Detail = i, "dump", "raw keys differ: impl "+id+" model "+strings.TrimPrefix(m, "dump ")
+					return out
+				}
 			}
 		case "op":
 			fault := -1
@@ -418,11 +421,11 @@ func runHistory(dr *Driver, im *Impl, lines []J, opts HistOpts) HistoryOutcome {
 				out.Index, out.Kind, out.Detail = i, "spec", sp
 				return out
 			}
-			if mp != "" {
+			if mp != "" && !opts.SpecOnly {
 				out.Index, out.Kind, out.Detail = i, "model", mp
 				return out
 			}
-			if opts.Traces && fault < 0 && strings.Join(er.Trace, " ") != kv["trace"] {
+			if opts.Traces && !opts.SpecOnly && fault < 0 && strings.Join(er.Trace, " ") != kv["trace"] {
 				out.Index, out.Kind, out.Detail = i, "trace", "store-call traces differ: impl ["+strings.Join(er.Trace, " ")+"] model ["+kv["trace"]+"]"
 				return out
 			}
